@@ -310,3 +310,211 @@ def rule_c09(prog, rep):
     if not ok:
         rep.violation('E4', f, f.line, 'limit', 'qlist_addat can link the element in on a path that neither saw max == 0 nor established '
                       'num < max (and passed the index-range test): the configured size limit is not enforced exactly')
+
+
+# --------------------------------------------------------------------------------------
+# E7: flatteners copy each element's recorded size (minus at most its final NUL)
+
+def rule_e7(prog, rep, rid='E7'):
+    """Concatenation (toarray / tostring behind qlist and qgrow): inside a loop that walks the chain (`obj = obj->next`) every
+    copy out of an element's payload has a length that is the element's recorded size, or that size minus one (the final
+    NUL of a string element), and the destination cursor advances by exactly the copied length.  A length computed from
+    the element's CONTENT (strlen / strnlen of the payload) cuts elements with embedded NUL bytes and shifts everything
+    after them."""
+    from .dataflow import ReachingDefs, poly_of, Poly
+    rep.rule(rid, 'in the chain-walking flatteners every copy out of an element takes the element\'s recorded size (or that size - 1) '
+                  'and the output cursor advances by the copied length')
+    prog.unit(LIST)
+    for f in sorted(prog.funcs_in(LIST), key=lambda x: x.line or 0):
+        if f.body is None:
+            continue
+        cfg = f.cfg
+        rd = None
+        for n in cfg.nodes:
+            if n.id not in cfg.reachable or not isinstance(n.ast, dict) or n.kind == 'macro':
+                continue
+            for x in walk(n.ast):
+                if x.get('kind') != 'CallExpr' or prog.callee_name(x) not in ('memcpy', 'memmove') or len(children(x)) < 4:
+                    continue
+                dst, src, ln = children(x)[1:4]
+                ss = strip(src)
+                if not (ss.get('kind') == 'MemberExpr' and ss.get('name') == 'data' and ss.get('isArrow')):
+                    continue
+                elem = canon(children(ss)[0])
+                # the walk: the element variable is advanced through ->next in a loop of this function
+                walks = any(y.get('kind') == 'BinaryOperator' and y.get('opcode') == '=' and canon(children(y)[0]) == elem
+                            and canon(children(y)[1]) in (elem + '->next', elem + '->prev') for y in walk(f.body))
+                dsts = strip(dst)
+                if not walks or dsts.get('kind') != 'DeclRefExpr':
+                    continue
+                rep.instance(rid)
+                if rd is None:
+                    rd = ReachingDefs(f)
+                size_atom = Poly.atom(elem + '->size')
+                ok, why = True, ''
+                # every reaching definition of the length: elem->size + c, c in {0, -1}
+                forms = []
+                ls = strip(ln)
+                if ls.get('kind') == 'DeclRefExpr' and (ls.get('_ref') or ('',))[0] == 'local':
+                    for d in rd.reaching(n.id, ls['_ref'][1]):
+                        if d.kind in ('init', 'assign') and d.rhs is not None:
+                            forms.append((poly_of(d.rhs), d.line))
+                        elif d.kind == 'update' and d.rhs is not None:
+                            r = strip(d.rhs)
+                            step = None
+                            if r.get('kind') == 'CompoundAssignOperator' and r.get('opcode') in ('-=', '+=') and int_value(children(r)[1]) is not None:
+                                step = int_value(children(r)[1]) * (-1 if r['opcode'] == '-=' else 1)
+                            elif r.get('kind') == 'UnaryOperator' and r.get('opcode') in ('--', '++'):
+                                step = -1 if r['opcode'] == '--' else 1
+                            if step is None:
+                                forms.append((None, d.line))
+                            else:
+                                # the value before the update: the initial definition(s) of the same variable in this function
+                                base = [poly_of(d2.rhs) for d2 in rd.defs if d2.var == d.var and d2.kind in ('init', 'assign') and d2.rhs is not None]
+                                for b in base:
+                                    forms.append((b + Poly.const(step), d.line))
+                                if not base:
+                                    forms.append((None, d.line))
+                        else:
+                            forms.append((None, d.line))
+                else:
+                    forms.append((poly_of(ln), x.get('_line')))
+                for (p_, line) in forms:
+                    c = (p_ - size_atom).as_const() if p_ is not None else None
+                    if c not in (0, -1):
+                        ok, why = False, 'the length defined at line %s is %s, not %s->size or %s->size - 1' % (
+                            line, 'not a closed form' if p_ is None else repr(p_), elem, elem)
+                        break
+                # the cursor advances by the copied length
+                if ok:
+                    dname = canon(dsts)
+                    adv = [y for y in walk(f.body) if y.get('kind') == 'CompoundAssignOperator' and y.get('opcode') == '+='
+                           and canon(children(y)[0]) == dname]
+                    if adv and not any(canon(children(y)[1]) == canon(ln) for y in adv):
+                        ok, why = False, 'the output cursor %s advances by %s, not by the copied length %s' % (
+                            dname, canon(children(adv[0])[1]), canon(ln))
+                rep.oblige(rid, ok, {'function': f.name, 'copy': canon(x)[:70]})
+                if not ok:
+                    rep.violation(rid, f, x.get('_line'), 'flatten:%s' % canon(ln)[:20],
+                                  '%s: %s - %s; elements with embedded or leading NUL bytes are cut and every later element shifts'
+                                  % (f.name, canon(x)[:60], why))
+
+
+# --------------------------------------------------------------------------------------
+# E8: derived position state is invalidated by every operation that re-links the chain
+
+def rule_e8(prog, rep, units=None, rid='E8'):
+    """A field of the container record that holds a node pointer and is assigned in a function that does not write any node
+    link (a lookup remembering where it was: a cursor cache) is derived state.  Every function that writes a node's
+    next/prev link or an end pointer of the chain must, on every path from such a write to its exit, assign that field
+    again (reset or update) - otherwise the remembered position/index describes the chain as it was."""
+    rep.rule(rid, 'a remembered position (a node-pointer field of the container assigned by a function that re-links nothing) is '
+                  're-assigned on every path after any write to a chain link or end pointer')
+    for unit in (units or [LIST]):
+        prog.unit(unit)
+        funcs = [f for f in prog.funcs_in(unit) if f.body is not None]
+
+        def link_write(y):
+            if y.get('kind') == 'BinaryOperator' and y.get('opcode') == '=':
+                l = strip(children(y)[0])
+                return l.get('kind') == 'MemberExpr' and l.get('name') in ('next', 'prev', 'first', 'last') and l.get('_field')
+            return False
+        # node record type = type of ->next fields
+        nodetypes = {x['_field'][0] for f in funcs for x in walk(f.body)
+                     if x.get('kind') == 'MemberExpr' and x.get('name') in ('next', 'prev') and x.get('_field')}
+        # candidate cache fields: container-record fields of node-pointer type other than those the re-linking functions own
+        assigned = {}      # (record, field) -> set of functions assigning a non-NULL value
+        for f in funcs:
+            for y in walk(f.body):
+                if y.get('kind') == 'BinaryOperator' and y.get('opcode') == '=':
+                    l = strip(children(y)[0])
+                    if l.get('kind') == 'MemberExpr' and l.get('_field') and l['_field'][0] not in nodetypes:
+                        t = (qtype(l) or '')
+                        if t.rstrip().endswith('*'):
+                            rt = f.unit.resolve_typedef(t.replace('*', '').replace('const', '').replace('struct', '').strip())[0]
+                            if rt in nodetypes and l.get('name') not in ('first', 'last'):
+                                from .expr import is_null
+                                if not is_null(children(y)[1]):
+                                    assigned.setdefault((l['_field'][0], l.get('name')), set()).add(f.name)
+        def chain_write(f, y):
+            """a write that re-links the chain: an end pointer, or a non-NULL next/prev of a node that is (or becomes) part of it"""
+            if not link_write(y):
+                return False
+            from .expr import is_null
+            l = strip(children(y)[0])
+            if l.get('name') in ('next', 'prev'):
+                if is_null(children(y)[1]):
+                    return False                 # initialisation of a fresh node / detaching: the real re-link writes an end pointer or a neighbour
+                b = strip(children(l)[0])
+                if b.get('kind') == 'DeclRefExpr' and (b.get('_ref') or ('',))[0] == 'param':
+                    pn = canon(b)
+                    stored = any(z.get('kind') == 'BinaryOperator' and z.get('opcode') == '=' and canon(children(z)[1]) == pn
+                                 and strip(children(z)[0]).get('kind') == 'MemberExpr' for z in walk(f.body))
+                    if not stored:
+                        return False             # the caller's cursor object, never linked in
+            return True
+        relinkers = {f.name for f in funcs if any(chain_write(f, y) for y in walk(f.body))}
+        caches = {k for k, fs in assigned.items() if fs - relinkers}
+        rep.notes.setdefault('position_cache_fields', {})[unit] = sorted('%s.%s' % k for k in caches)
+        for (rec, fld) in sorted(caches):
+            setters = set(assigned[(rec, fld)])
+            changed = True
+            while changed:
+                changed = False
+                for f in funcs:
+                    if f.name not in setters and any(y.get('kind') == 'CallExpr' and prog.callee_name(y) in setters for y in walk(f.body)):
+                        setters.add(f.name)
+                        changed = True
+            for f in sorted(funcs, key=lambda x: x.line or 0):
+                if f.name not in relinkers:
+                    continue
+                cfg = f.cfg
+                rep.instance(rid)
+
+                def events(m):
+                    out = []
+                    if not isinstance(m.ast, dict) or m.kind == 'macro':
+                        return out
+                    from .expr import is_null
+                    from .own import node_events
+                    for ev in node_events(m):
+                        if ev[0] == 'assign':
+                            l = strip(ev[1])
+                            if l.get('kind') == 'MemberExpr' and l.get('name') == fld and (l.get('_field') or ('',))[0] == rec:
+                                out.append('RESET' if is_null(ev[2]) else 'SET')
+                            elif chain_write(f, ev[3]):
+                                out.append('LINK')
+                        elif ev[0] == 'call' and prog.callee_name(ev[1]) in setters and prog.callee_name(ev[1]) != f.name:
+                            out.append('SET')
+                    return out
+                IN = {cfg.entry.id: frozenset('V')}
+                work = [cfg.entry]
+                firstlink = {}
+                while work:
+                    m = work.pop()
+                    st = set(IN[m.id])
+                    for e in events(m):
+                        if e == 'SET':
+                            st = {'V'}
+                        elif e == 'RESET':
+                            st = {'I'}
+                        elif e == 'LINK' and 'V' in st:
+                            st.discard('V')
+                            st.add('S')
+                            firstlink.setdefault('line', m.line)
+                    st = frozenset(st)
+                    for (s2, _l) in m.succs:
+                        old = IN.get(s2.id)
+                        if old is None:
+                            IN[s2.id] = st
+                            work.append(s2)
+                        elif not st <= old:
+                            IN[s2.id] = old | st
+                            work.append(s2)
+                bad = 'S' in IN.get(cfg.exit.id, frozenset())
+                rep.oblige(rid, not bad, {'function': f.name, 'cache_field': '%s.%s' % (rec, fld)})
+                if bad:
+                    rep.violation(rid, f, firstlink.get('line') or f.line, 'stale:%s' % fld,
+                                  '%s re-links the chain (line %s) and can return with the remembered position %s.%s still describing the old '
+                                  'order (neither reset nor re-established afterwards): the next index lookup starts from a stale node/index pair'
+                                  % (f.name, firstlink.get('line'), rec, fld))
